@@ -333,11 +333,11 @@ class Gen:
         subj, ctrl = self.clause_subject()
         prep = None
         if lang == "fr":
-            plem = rng.choice(["que", "que", "où", "dont", "P+qui", "P+lequel"])
+            plem = rng.choice(["que", "que", "où", "dont", "P+qui", "P+lequel", "auquel", "duquel"])
             if plem.startswith("P+"):
                 prep, plem = self.T("P", rng.choice(["à", "pour", "avec"])), plem[2:]
         else:
-            plem = rng.choice(["that", "that", "which", "whom"])
+            plem = rng.choice(["that", "that", "which", "whom", "who"])
         pro = self.T("Pro", plem)
         ptag = "pro=" + ("P+" if prep is not None else "") + plem
         tags = ["object-relative", ptag] + (["coord"] if ctrl["k"] == "CP" else [])
